@@ -59,6 +59,29 @@ Theorem C09_next_processable : forall (cstate : Type) dest_check (J : cacct csta
              a_cursor a' = a_cursor a + Z.of_nat (length q) /\ nonneg cstate a' /\ J a'.
 Proof. exact inbox_never_wedged. Qed.
 
+(* ---- KNOWN FINDING refund-to-contract-sender-fails (reproduced on the real node by suite "wedge"): a failing call
+   that carries value and was sent by a contract cannot be refunded; generateEmbeddedReceive returns an error, no
+   receive block exists and the call stays at the head of the receiver's inbox.  All completion theorems above are
+   the partial statement: they assume [dest_check (refund_of s) = None], which excludes exactly this class. *)
+Theorem C09_refund_to_contract_refuted : forall (cstate : Type) dest_check (lookup : send -> lres cstate) a s m c c',
+  lookup s = LFound m -> m (credited cstate a s) s = MErr c -> 0 < s_amount s -> dest_check (refund_of s) = Some c' ->
+  generate_receive cstate dest_check lookup a s = RInternal c'.
+Proof. intros cstate dc. exact (refund_to_contract_wedges cstate dc (fun _ => True)). Qed.
+Theorem C09_refund_to_contract_partial : forall (cstate : Type) dest_check (J : cacct cstate -> Prop) (lookup : send -> lres cstate) q,
+  table_ok cstate dest_check J lookup ->
+  Forall (fun s => send_ok s /\ dest_check (refund_of s) = None) q ->
+  forall a, nonneg cstate a -> J a ->
+  exists a', process_all cstate dest_check lookup a q = Some a' /\
+             a_cursor a' = a_cursor a + Z.of_nat (length q) /\ nonneg cstate a' /\ J a'.
+Proof. exact inbox_never_wedged. Qed.
+
+(* spork regimes only ever move to a larger method table (checked on the real tables every run): a call that found
+   its contract and method when it was accepted finds them when it is received, so the nil-method dereference of
+   generateEmbeddedReceive (lookup error other than ErrContractMethodNotFound) is not reachable *)
+Theorem C09_accepted_call_keeps_its_method : forall t t' c sel,
+  mt_incl t t' = true -> mt_has t c sel = true -> mt_has t' c sel = true.
+Proof. exact mt_incl_keeps. Qed.
+
 (* ---- the modelled contracts satisfy table_ok, hence complete or refund, for every contract state satisfying the
    contract's storage invariant (which every step re-establishes); [ef s] is the frontier momentum and the
    constants under which the send s is received *)
